@@ -455,52 +455,49 @@ class Acceptor:
         r = self.known.get(key)
         if r is None:
             raise Reject("invoke-unknown", "handler %d was never registered" % key)
-        # does it belong to the dispatch in progress?
-        while True:
-            if self.cur is None:
-                if not self.pending:
-                    raise Reject("invoke-without-event", "handler %d called for event %d although no posted event is "
-                                 "waiting" % (key, e))
-                self.begin(self.pending.pop(0))
-            c = self.cur
-            if c["post"]["e"] == e and not c["aborted"] and any(x["key"] == key for x in c["todo"]):
-                break
-            if c["post"]["e"] == e and any(x["key"] == key for x in c["done"]) and \
-                    not self.later_dispatch_could_call(key, e):
-                raise Reject("handler-twice", "handler %d called twice in one dispatch of event %d" % (key, e))
-            if c["post"]["e"] == e and key in self.live and not any(x["key"] == key for x in c["todo"] + c["done"]) \
-                    and not self.later_dispatch_could_call(key, e):
-                raise Reject("handler-not-in-snapshot", "handler %d registered during the dispatch of event %d was "
-                             "called in that dispatch" % (key, e))
-            # the observation must then belong to the next dispatch: the current one has to be complete
-            try:
+        c0 = self.cur
+        try:
+            # find the dispatch the observation belongs to: the one in progress, or - after completing it and every
+            # waiting event that calls nobody - the next waiting one
+            while True:
+                if self.cur is None:
+                    if not self.pending:
+                        raise Reject("invoke-without-event", "handler %d called for event %d although no posted event "
+                                     "is waiting" % (key, e))
+                    self.begin(self.pending.pop(0))
+                c = self.cur
+                if c["post"]["e"] == e and not c["aborted"] and any(x["key"] == key for x in c["todo"]) and \
+                        cond_ok(r["cond"], kw_merge(c["kw"], r["kw"])):
+                    break
                 self.finish()
-            except Reject as rj:
-                if c["post"]["e"] != e and (c["done"] or c["todo"]):
-                    later = [p["e"] for p in self.pending]
-                    if e in later or e in [p["e"] for p in c["new"]]:
-                        raise Reject("dispatch-order", "handler %d of event %d called while event %d (posted earlier in "
-                                     "depth-first order) still had handlers to run: %s" % (key, e, c["post"]["e"], rj.what))
-                raise
-            if self.pending and self.pending[0]["e"] != e and not self.silent(self.pending[0]):
-                nxt = self.pending[0]
-                raise Reject("dispatch-order", "handler %d of event %d called, but event %d (post #%d) must be dispatched "
-                             "first" % (key, e, nxt["e"], nxt["id"]))
+        except Reject as rj:
+            if c0 is not None and c0["post"]["e"] == e and any(x["key"] == key for x in c0["done"]):
+                raise Reject("handler-twice", "handler %d called twice in one dispatch of event %d" % (key, e))
+            if c0 is not None and c0["post"]["e"] == e and key in self.live and \
+                    not any(x["key"] == key for x in c0["todo"] + c0["done"]):
+                raise Reject("handler-not-in-snapshot", "handler %d, registered during the dispatch of event %d, was "
+                             "called in that dispatch" % (key, e))
+            if c0 is not None and c0["post"]["e"] == e and not c0["aborted"] and \
+                    any(x["key"] == key for x in c0["todo"]):
+                raise Reject("condition-ignored", "handler %d called although its condition is false on %s" %
+                             (key, kw_merge(c0["kw"], r["kw"])))
+            if rj.sig == "handler-missed" and self.cur is not None and self.cur["post"]["e"] != e:
+                raise Reject("dispatch-order", "handler %d of event %d was called although event %d (post #%d) has to be "
+                             "dispatched before it: %s" % (key, e, self.cur["post"]["e"], self.cur["post"]["id"], rj.what))
+            raise
         c = self.cur
-        # order within the dispatch: everything before it in the snapshot must be skippable
+        # order within the dispatch: every handler before it in the snapshot must be skippable
         idx = [x["key"] for x in c["todo"]].index(key)
         for x in c["todo"][:idx]:
             if x["key"] in self.live and cond_ok(x["cond"], kw_merge(c["kw"], x["kw"])):
-                raise Reject("handler-order", "handler %d (priority %d, registration #%d) called before handler %d "
-                             "(priority %d, registration #%d) in the dispatch of event %d" %
+                raise Reject("handler-order", "handler %d (priority %d, registration #%d) called before (or instead of) "
+                             "handler %d (priority %d, registration #%d) in the dispatch of event %d" %
                              (key, r["prio"], r["seq"], x["key"], x["prio"], x["seq"], e))
         c["todo"] = c["todo"][idx + 1:]
         c["done"].append(r)
         want = kw_merge(c["kw"], r["kw"])
-        if not cond_ok(r["cond"], want):
-            raise Reject("condition-ignored", "handler %d called although its condition is false on %s" % (key, want))
         if want != kw:
-            raise Reject("kwargs-merge", "handler %d got %s, posted (+relayed) %s, registered %s" %
+            raise Reject("kwargs-merge", "handler %d got %s; posted (+relayed) %s, registered with the handler %s" %
                          (key, kw, c["kw"], r["kw"]))
         if pid != r["pid"] or e != r["e"]:
             raise Reject("invoke-wrong-handler", "registration %d: observed pid/event differ" % key)
@@ -511,12 +508,6 @@ class Acceptor:
             c["todo"] = []
         elif c["post"]["ty"] == "relay" and ret[0] == "m":
             c["kw"] = kw_merge(c["kw"], [[k, ["z", v]] for k, v in ret[1]])
-
-    def later_dispatch_could_call(self, key, e):
-        """the same event is waiting again and the current dispatch can be complete"""
-        c = self.cur
-        nxt = (c["new"] + self.pending)
-        return bool(nxt) and any(p["e"] == e for p in nxt)
 
     def silent(self, post):
         """a waiting event whose dispatch would call nobody (so it produces no observation)"""
@@ -553,8 +544,6 @@ class Acceptor:
         self.done_cbs.add(i)
         if cpid != pid:
             raise Reject("callback-unknown", "post #%d: wrong callback" % i)
-        if want != kw:
-            raise Reject("callback-kwargs", "callback of post #%d got %s, expected %s" % (i, kw, want))
         self.run_prog(pid, self.pending)
 
     def on_ctx(self, pid):
